@@ -723,10 +723,13 @@ async fn run_task(w: Arc<World>, me: usize, is_async: bool, ends: Ends) {
                 Some(Handle::Fut(h)) => h.is_finished() as i64,
                 _ => SKIP,
             }),
-            Op::Acquire(s, n) => {
+            Op::Acquire(s, n) => Some(if acq.is_some() {
+                // one acquisition per task at a time (keeps the reference model simple)
+                SKIP
+            } else {
                 let r = if is_async { wr.sems[*s].acquire(*n).await } else { wr.sems[*s].acquire_blocking(*n) };
-                Some(r.is_ok() as i64)
-            }
+                r.is_ok() as i64
+            }),
             Op::TryAcquire(s, n) => Some(match wr.sems[*s].try_acquire(*n) {
                 Ok(()) => 1,
                 Err(shuttle_engine::future::batch_semaphore::TryAcquireError::NoPermits) => 0,
